@@ -249,6 +249,45 @@ Definition validate_modes (s1 s2 m1 m2 : list nat) : bool :=
   forallb (fun p => (fst p <? length s1) && (snd p <? length s2) && (nth (fst p) s1 0 =? nth (snd p) s2 0))
           (combine m1 m2).
 
+(* ------------------------------------------------------------------ tenalg_utils._validate_contraction_modes *)
+(* the argument forms of tensordot's `modes` / `batched_modes`: an int, or a sequence whose entries are ints or sequences of
+   ints (a 2-entry sequence is read as the pair (modes1, modes2), any other length as the same modes for both tensors) *)
+Inductive mside := SInt (z : Z) | SList (l : list Z).
+Inductive marg := MInt (k : Z) | MSeq (l : list mside).
+Definition side_list (s : mside) : list Z := match s with SInt z => [z] | SList l => l end.
+Fixpoint ints_of (l : list mside) : option (list Z) :=
+  match l with
+  | [] => Some []
+  | SInt z :: r => match ints_of r with Some zs => Some (z :: zs) | None => None end
+  | SList _ :: _ => None          (* shape[[..]] raises TypeError *)
+  end.
+(* Python indexing of a length-n sequence: -n <= z < n, negative entries count from the end *)
+Definition py_index (n : nat) (z : Z) : option nat :=
+  if ((0 <=? z) && (z <? Z.of_nat n))%Z then Some (Z.to_nat z)
+  else if ((z <? 0) && (- Z.of_nat n <=? z))%Z then Some (Z.to_nat (z + Z.of_nat n)) else None.
+(* the length check and the loop over the pairs: sizes compared with Python indexing, then negative modes normalised *)
+Fixpoint norm_modes (s1 s2 : list nat) (l1 l2 : list Z) : res (list nat * list nat) :=
+  match l1, l2 with
+  | [], [] => Ok ([], [])
+  | z1 :: r1, z2 :: r2 =>
+      match py_index (length s1) z1, py_index (length s2) z2 with
+      | Some i, Some j =>
+          if nth i s1 0 =? nth j s2 0
+          then rbind (norm_modes s1 s2 r1 r2) (fun p => Ok (i :: fst p, j :: snd p)) else Err
+      | _, _ => Err
+      end
+  | _, _ => Err
+  end.
+Definition validate_contraction (s1 s2 : list nat) (a : marg) (batched : bool) : res (list nat * list nat) :=
+  match a with
+  | MInt k =>
+      if batched then norm_modes s1 s2 [k] [k]
+      else let n := Z.to_nat k in       (* range(-k, 0) and range(0, k); both empty for k <= 0 *)
+           norm_modes s1 s2 (map (fun i => (Z.of_nat i - Z.of_nat n)%Z) (seq 0 n)) (map Z.of_nat (seq 0 n))
+  | MSeq [a1; a2] => norm_modes s1 s2 (side_list a1) (side_list a2)
+  | MSeq l => match ints_of l with Some zs => norm_modes s1 s2 zs zs | None => Err end
+  end.
+
 (* _batched_tensordot.py *)
 Fixpoint final_modes_loop (is_ : list nat) (m1 b1 : list nat) (nb bc fc : nat) : list nat :=
   match is_ with
@@ -366,12 +405,19 @@ Fixpoint mmd_e_loop (l : list triple) (skip : option nat) (tr : bool) (order : n
       | _ => Err
       end
   end.
+(* np.einsum raises when an operand's rank differs from its number of labels or when two axes with the same label differ in
+   size (an axis of size 1 would be broadcast by NumPy: outside the model, rejected here) *)
+Definition einsum_sizes_ok (ins : list (list nat)) (ts : list (tensor F)) : bool :=
+  forallb (fun p => (length (fst p) =? ndim (snd p))
+                    && forallb (fun q => snd q =? label_size ins ts (fst q)) (combine (fst p) (shape (snd p))))
+          (combine ins ts).
 Definition multi_mode_dot_e (T : tensor F) (Ms : list (tensor F)) (modes : option (list nat))
            (skip : option nat) (tr : bool) : res (tensor F) :=
   let order := ndim T in
   rbind (mmd_e_loop (sort_by_mode (zip3 Ms modes)) skip tr order
                     (mkS [] [] (seq 0 order) (order + 1) 0)) (fun st =>
-  Ok (einsum (seq 0 order :: s_ins st) (s_out st) (T :: s_ops st))).
+  if einsum_sizes_ok (seq 0 order :: s_ins st) (T :: s_ops st)
+  then Ok (einsum (seq 0 order :: s_ins st) (s_out st) (T :: s_ops st)) else Err).
 
 (* np.einsum operand checks: the weights need exactly one axis, of length R or 1 (broadcast); the mask one axis per matrix with
    the row counts (masks with broadcastable size-1 axes are outside the model: Err) *)
@@ -442,6 +488,12 @@ Definition tensordot_e (A B : tensor F) (m1 m2 b1 b2 : list nat) : res (tensor F
     let rem2 := map snd (filter (fun p => negb (memb (fst p) (m2 ++ b2))) (combine (seq 0 (length s2)) all2)) in
     Ok (einsum [all1; all2] (rem1 ++ rem2) [A; B])
   else Err.
+
+(* tensordot as called: modes / batched_modes in any accepted argument form *)
+Definition tensordot_raw (core : bool) (A B : tensor F) (ma ba : marg) : res (tensor F) :=
+  rbind (validate_contraction (shape A) (shape B) ma false) (fun pm =>
+  rbind (validate_contraction (shape A) (shape B) ba true) (fun pb =>
+  (if core then tensordot else tensordot_e) A B (fst pm) (snd pm) (fst pb) (snd pb))).
 
 Definition outer_e (ts : list (tensor F)) : res (tensor F) :=
   match ts with [] => Err
